@@ -252,9 +252,11 @@ Record sess := mkS {
 }.
 
 (* what the client sees for one command: reply codes in order, and a payload:
-   PWD -> the directory text; RETR -> the bytes on the data connection;
+   PWD -> the directory text; RETR -> the announced size and the bytes on the data connection;
    LIST/NLST -> the names listed (as a list); SIZE -> the number *)
-Inductive payload := PNone | PText (b : bytes) | PNames (l : list comp) | PNum (n : Z).
+Inductive payload :=
+| PNone | PText (b : bytes) | PNames (l : list comp) | PNum (n : Z)
+| PRetr (announced : Z) (b : bytes).   (* RETR: the size named in the 150 reply, the bytes sent *)
 Record resp := mkR { r_codes : list N; r_pay : payload; r_touched : list bytes }.
 
 Definition rp_of (s : sess) (p : bytes) : bytes := real_path (h_root (s_h s)) (h_cwd (s_h s)) p.
@@ -330,7 +332,7 @@ Definition step (s : sess) (c : cmd) : option (sess * resp) :=
       match lookup (s_fs s) k with
       | None => Some (s', mkR [551] (PText []) [k])
       | Some NDir => Some (s', mkR [150; 551] (PText []) [k])
-      | Some (NFile c) => Some (s', mkR [150; 226] (PText (retr_data c (s_pos s))) [k])
+      | Some (NFile c) => Some (s', mkR [150; 226] (PRetr (Z.of_nat (length c)) (retr_data c (s_pos s))) [k])
       end) s
   | CList p | CNlst p =>
       let k := rp_of s p in
